@@ -1,3 +1,15 @@
--- This module serves as the root of the `Canine` library.
--- Import modules here that should be built as part of the library.
-import Canine.Basic
+-- Root of the `Canine` library: the executable models.  Property modules (Canine/Props/Cxx.lean)
+-- are separate build targets (`lake build Canine.Props.Cxx`): their helper-lemma files were
+-- written independently and are not meant to be imported together.
+import Canine.Rns.Model
+import Canine.Notif.Model
+import Canine.Mint.Model
+import Canine.Filetree.Model
+import Canine.Filetree.Path
+import Canine.Storage.Model
+import Canine.Storage.Merkle
+import Canine.Storage.Wasm
+import Canine.Oracle.Model
+import Canine.Genesis.Model
+import Canine.Crypto.Sha256
+import Canine.Crypto.Sha3
